@@ -462,6 +462,40 @@ class ParentEqualsExceptLocation(Case):
                     yield dict(a=list(a), b=list(b), flag=flag)
 
 
+class VariantCollectionOverlap(Case):
+    """VariantIntervalCollection([v0, v1, v2]) with the three variants listed in ANY order: refused with the
+    documented LocationOverlapException iff some two of them share a position - whichever positions they hold in the
+    list; otherwise the variants are stored ordered by start."""
+    props = ("C19", "C13")
+    name = "VariantIntervalCollection.__init__[three variants in any order: overlap check]"
+    func = "gene.variants.VariantIntervalCollection.__init__"
+    module = "gene.variants"
+    shard_depth = 4
+    call = "[v.start for v in VariantIntervalCollection([v0, v1, v2]).variant_intervals]"
+    raises = {"LocationOverlapException": lambda i: Or(*[
+        Max(i.s[a], i.s[b]) < Min(i.e[a], i.e[b]) for a in range(3) for b in range(a + 1, 3)])}
+    ensures = {"stored-ordered-by-start": lambda i, r: And(r[0] <= r[1], r[1] <= r[2],
+                                                         sum(r, 0) == sum(i.s, 0))}
+
+    def inputs(self, S):
+        s_, e_, vs = [], [], []
+        for k in range(3):
+            a, b = S.int(f"s{k}"), S.int(f"e{k}")
+            S.assume(And(0 <= a, a < b))
+            s_.append(a)
+            e_.append(b)
+            vs.append(S.new("gene.variants.VariantInterval", a, b, "A", "variant"))
+        return NS(v0=vs[0], v1=vs[1], v2=vs[2], s=s_, e=e_,
+                  VariantIntervalCollection=S.cls("gene.variants.VariantIntervalCollection"))
+
+    def samples(self, rng):
+        d = {}
+        for k in range(3):
+            a = rng.randint(0, 20)
+            d[f"s{k}"], d[f"e{k}"] = a, a + rng.randint(1, 5)
+        return d
+
+
 class FromSingleIntervals(Case):
     """CompoundInterval.from_single_intervals: refused iff empty, mixed strands, or parents that are not equal except
     for the location (same id but different type or sequence counts as different)."""
@@ -588,5 +622,5 @@ class OpenEndedSlice(Case):
 CASES = [OpenEndedSlice(), TranscriptCdsBounds(), TranscriptCdsArgs(), CdsInitShape("FF"), CdsInitShape("PP"), CdsInitShape("FP"),
          CdsInitShape("F"), CdsInitShape("FFF"), VariantInit(), EmptyCollections(), AnnotationCollectionBounds(),
          InitializeLocation(), SequenceInit(), ParentConsistency(), FromSingleIntervals(),
-         CompoundOnSequence("shift_position"), CompoundOnSequence("__init__"), ParentExplicitParent(), ReparentMismatch(), ParentEqualsExceptLocation(),
+         CompoundOnSequence("shift_position"), CompoundOnSequence("__init__"), ParentExplicitParent(), ReparentMismatch(), ParentEqualsExceptLocation(), VariantCollectionOverlap(),
          *[ChunkParentGuards(v, k) for v in ("constructor", "static helper") for k in ChunkParentGuards.KINDS]]
